@@ -218,7 +218,8 @@ std::vector<std::uint8_t> encode(const Message& message) {
                 const auto endpoint_len = static_cast<std::uint32_t>(payload.endpoint.size());
                 const auto manifest_len = static_cast<std::uint32_t>(payload.manifest_uri.size());
                 const auto assignments_len = static_cast<std::uint32_t>(payload.assigned_shards.size());
-                const bool include_pow = version >= kCurrentMessageVersion;
+                // decode() expects the PoW nonce from version 3 onward.
+                const bool include_pow = version >= 3;
 
                 write_u32(out, static_cast<std::uint32_t>(payload.ttl.count()));
                 write_u32(out, endpoint_len);
